@@ -212,6 +212,8 @@ func errClass(err error) string {
 		return "ENoPublicKey"
 	case errors.Is(err, biscuit.ErrSymbolTableOverlap):
 		return "ESymbolOverlap"
+	case errors.Is(err, biscuit.ErrMissingSymbols):
+		return "EMissingSymbols"
 	}
 	msg := err.Error()
 	switch {
